@@ -322,7 +322,12 @@ class FnContract:
                              meta={'origin': origin})
                 for cl in c.ensures(pre, post2):
                     label, cond = cl[0], cl[1]
-                    tags = cl[2] if len(cl) > 2 else (c.tags or self.tags)
+                    tags = cl[2] if len(cl) > 2 and cl[2] is not None else (c.tags or self.tags)
+                    if len(cl) > 3 and cl[3]:
+                        # instances of separately proved lemmas (Layer B) offered as hints for this clause
+                        s2 = s2.clone()
+                        for h in cl[3]:
+                            s2.assume(h)
                     eng.emit(s2, '%s/path%d/%s/%s' % (fname, pi, c.name, label), cond, kind='clause', tags=tags, meta={'origin': origin})
                     # clauses are proved in order: an earlier clause (with its own obligation) may be used by later ones
                     s2 = s2.clone()
